@@ -6,10 +6,14 @@
      fix_halfopen (D20)  findFeaturesAtPysamAlign(method=1) queries [start, end-1] of a pysam block
    Python objects:  feature tuple (start, end, name, strand, data) -> [feat] (name/data are order
    preserving integer codes; strand 0 = None, 1 = '+', 2 = '-');  contig name -> Z;
-   np.searchsorted(sorted array, v, 'left') -> [ss_left];  set(...) -> [dedup];  exceptions -> [RRaise]. *)
+   np.searchsorted(sorted array, v, 'left') -> [ss_left];  set(...) -> [dedup];  exceptions -> [RRaise].
+   T: the search keys and sides of every np.searchsorted call, the scan / overlap / strand conditions, the window
+   ends, the block end of the read annotation, which lookups re-index first and where the cache is cleared are the
+   definitions g_* of Gen/GenFeatures.v, REGENERATED from the current source on every run (tools/c16.py); the shape
+   lemmas of Proofs/C16_a.v connect them to the reference kernel ([*_ref]) the window proofs are about. *)
 From Coq Require Import ZArith List Bool.
 Import ListNotations.
-From SCMO Require Import Lib.Val.
+From SCMO Require Import Lib.Val Gen.GenFeatures.
 Open Scope Z_scope.
 
 Record feat := mkF { f_start : Z; f_end : Z; f_name : Z; f_strand : Z; f_data : Z }.
@@ -53,6 +57,14 @@ Fixpoint ss_left (l : list Z) (v : Z) : nat :=
   | a :: t => if a <? v then S (ss_left t v) else O
   end.
 
+(* side='right': index of the first element > v *)
+Fixpoint ss_right (l : list Z) (v : Z) : nat :=
+  match l with
+  | [] => O
+  | a :: t => if a <=? v then S (ss_right t v) else O
+  end.
+Definition ss (side : Z) (l : list Z) (v : Z) : nat := if side =? 0 then ss_left l v else ss_right l v.
+
 (* [l[i] for i in range(lo, hi)]  for hi <= len(l); empty when lo >= hi *)
 Definition window {A} (lo hi : nat) (l : list A) : list A := firstn (hi - lo) (skipn lo l).
 
@@ -82,14 +94,21 @@ Definition fast_at (fast : list nat) (s : nat) : nat :=
    (the fourth variant of the source, any other string, is not modelled) *)
 Definition at_rec (r : crec) (x q o : Z) : list feat :=
   let fs := c_feats r in
-  let s := ss_left (c_starts r) (x + 1) in
-  let hi := Nat.min s (length fs) in
+  let n := Z.of_nat (length fs) in
+  let s := ss g_s_side (c_starts r) (g_s_key x) in
   if o =? 0 then
-    filter (fun f => endok x f && smatch q f) (window (fast_at (c_fast r) s) hi fs)
+    filter (fun f => g_fast_keep (f_end f) x (q =? 0) (f_strand f =? q))
+           (window (fast_at (c_fast r) s) (Z.to_nat (g_fast_end (Z.of_nat s) n)) fs)
   else if o =? 1 then
-    filter (smatch q) (dedup (filter (endok x) (window (ss_left (c_starts r) (x - c_maxlen r)) hi fs)))
+    filter (fun f => g_strand_keep (q =? 0) (f_strand f =? q))
+           (dedup (filter (fun f => g_nb_keep (f_end f) x)
+                          (window (ss g_nb_side (c_starts r) (g_nb_key x (c_maxlen r)))
+                                  (Z.to_nat (g_nb_end (Z.of_nat s) n)) fs)))
   else
-    filter (smatch q) (dedup (filter (endok x) (window 0 hi fs))).
+    let s2 := ss g_optim_side (c_starts r) (g_optim_key x) in
+    filter (fun f => g_strand_keep (q =? 0) (f_strand f =? q))
+           (dedup (filter (fun f => g_optim_keep (f_end f) x)
+                          (window 0 (Z.to_nat (g_optim_end (Z.of_nat s2) n)) fs))).
 
 (* ---- the lru_cache(maxsize=512) on findFeaturesAt: most recently used first *)
 Definition key := (Z * Z * Z * Z)%type.     (* contig, coordinate, strand, optim *)
@@ -118,7 +137,9 @@ Definition memo_put (k : key) (v : list feat) (m : memo) : memo :=
   end.
 
 Record cfg := mkCfg { fix_clear : bool; fix_autosort : bool; fix_halfopen : bool }.
-Definition cfg_fixed : cfg := mkCfg true true true.
+Definition cfg_ref : cfg := mkCfg true true true.
+(* the switches as the current source sets them (the block end itself is g_block_end) *)
+Definition cfg_fixed : cfg := mkCfg (g_clear_add && g_clear_sort) (g_autosort_between && g_autosort_blocks) true.
 Definition cfg_head : cfg := mkCfg false false false.
 
 Record state := mkS { st_contigs : list (Z * crec); st_sorted : bool; st_memo : memo }.
@@ -171,7 +192,7 @@ Fixpoint lowest_starts (c : Z) (r : crec) (fs : list feat) (m : memo) : option (
   end.
 
 Definition pre_rec (fs : list feat) : crec :=
-  mkC fs true (map f_start fs) (sort_Z (map f_end fs)) (list_max (map (fun f => f_end f - f_start f) fs)) [].
+  mkC fs true (map f_start fs) (sort_Z (map f_end fs)) (list_max (map (fun f => g_len (f_start f) (f_end f)) fs)) [].
 
 Definition sort_one (c : Z) (r : crec) (m : memo) : (crec + Z) * memo :=
   if has_incomparable (c_feats r) then (inr 1, m) else
@@ -181,7 +202,7 @@ Definition sort_one (c : Z) (r : crec) (m : memo) : (crec + Z) * memo :=
   let '(lows, m1) := lowest_starts c r1 fs m in
   match lows with
   | None => (inr 3, m1)
-  | Some lows => (inl (mkC fs true (c_starts r1) (c_ends r1) (c_maxlen r1) (map (ss_left (c_starts r1)) lows)), m1)
+  | Some lows => (inl (mkC fs true (c_starts r1) (c_ends r1) (c_maxlen r1) (map (ss g_fastidx_side (c_starts r1)) lows)), m1)
   end.
 
 Fixpoint sort_contigs (l : list (Z * crec)) (m : memo) : (list (Z * crec) + Z) * memo :=
@@ -222,7 +243,7 @@ Definition at_cached (g : cfg) (st : state) (k : key) : state * res :=
   match memo_find k (st_memo st) with
   | Some v => (mkS (st_contigs st) (st_sorted st) (memo_touch k v (st_memo st)), ROk v)
   | None =>
-      match ensure_sorted g st with
+      match (if g_autosort_at then ensure_sorted g st else (st, None)) with
       | (st1, Some e) => (st1, RRaise e)
       | (st1, None) =>
           let v := answer (st_contigs st1) k in
@@ -234,14 +255,15 @@ Definition at_cached (g : cfg) (st : state) (k : key) : state * res :=
 Fixpoint scan_between (a b q : Z) (l : list feat) : list feat :=
   match l with
   | [] => []
-  | f :: t => if f_start f >? b then []
-              else (if overlap a b f && smatch q f then [f] else []) ++ scan_between a b q t
+  | f :: t => if g_btw_stop (f_start f) b then []
+              else (if g_btw_overlap a b (f_start f) (f_end f) && g_btw_strand (q =? 0) (q =? f_strand f) then [f] else [])
+                   ++ scan_between a b q t
   end.
 
 Definition between_rec (r : crec) (a b q : Z) : list feat :=
-  let i0 := (ss_left (c_starts r) a - 1)%nat in
-  let k := ss_left (c_ends r) b in
-  scan_between a b q (skipn (Nat.min i0 k) (c_feats r)).
+  let ssa := ss g_btw_s_side (c_starts r) (g_btw_s_key a b) in
+  let sse := ss g_btw_e_side (c_ends r) (g_btw_e_key a b) in
+  scan_between a b q (skipn (Z.to_nat (g_btw_start (g_btw_i0 (Z.of_nat ssa)) (Z.of_nat sse))) (c_feats r)).
 
 Definition between (g : cfg) (st : state) (c a b q : Z) : state * res :=
   match (if fix_autosort g then ensure_sorted g st else (st, None)) with
@@ -288,7 +310,8 @@ Definition blocks (g : cfg) (st : state) (c : Z) (bl : list (Z * Z)) (q meth : Z
           if negb (c_indexed r) then (st1, ROk []) else
           match (if meth =? 0
                  then fold_q (fun s p => at_cached g s (c, p, q, 0)) st1 (block_positions bl) []
-                 else fold_q (fun s p => between g s c (fst p) (if fix_halfopen g then snd p - 1 else snd p) q) st1 bl [])
+                 else fold_q (fun s p => between g s c (if fix_halfopen g then g_block_start (fst p) (snd p) else fst p)
+                                                    (if fix_halfopen g then g_block_end (fst p) (snd p) else snd p) q) st1 bl [])
           with
           | (st2, ROk l) => (st2, ROk (dedup l))
           | (st2, RRaise e) => (st2, RRaise e)
@@ -382,7 +405,7 @@ Definition dec_op (v : Val) : op :=
 Definition enc_res (r : res) : Val :=
   match r with ROk l => VL [VZ 0; VL (map enc_feat l)] | RRaise e => VL [VZ 1; VZ e] end.
 
-(* mode 0: trace of the repaired machine; 1: precondition; 2: specification trace;
+(* mode 0: trace of the machine with the switches and kernel of the current source; 1: precondition; 2: specification trace;
    3: trace of the machine as the code is at HEAD (no fix), used for the refutations and for diagnosis *)
 Definition run_C16 (mode : Z) (v : Val) : Val :=
   let ops := map dec_op (getL v) in
